@@ -59,7 +59,7 @@ def run(ctx):
   ctx.count("struct_shapes_run", len(cases))
 
   # 3. code -> spec: random documents
-  ndocs = 3000 if thorough else 90
+  ndocs = 3000 if thorough else 350
   for _ in range(ndocs):
     adoc = G.random_doc(ctx.rng, rich=ctx.rng.random() < 0.5)
     if thorough:
